@@ -341,3 +341,14 @@ Theorem C20_prefix_dash_tree_read_folder_name_refuted :
     fi_path fi = fi_path cur /\ fi_name fi <> fi_name cur.
 Proof. exact dt_prefix_read_folder_name_refuted. Qed.
 Print Assumptions C20_prefix_dash_tree_read_folder_name_refuted.
+
+(* ---- the decision function dominates every send, from the source: on EVERY path through NotifyAlertHandlerRequest
+   (call-order skeleton regenerated from /repo on every run, callees inlined) each of sendAlertEmail, sendSlack and
+   sendWebhooks is preceded by shouldSendNotification (whose regenerated body is proved equal to the model's
+   should_send above), and in updateAlertStateAndCreateAlertHistory the history row is written only after the state
+   has been stored (rules C20.* of GenOrderCheck.co_rules). ---- *)
+From SigP Require GenOrderCheck GenOrderProofs.
+Theorem C20_code_notification_gate_dominates_every_send : forall r : GenOrderCheck.rule,
+  In r GenOrderCheck.c20_rules -> GenOrderCheck.rule_holds r.
+Proof. exact GenOrderProofs.co_C20_rules_hold. Qed.
+Print Assumptions C20_code_notification_gate_dominates_every_send.
